@@ -169,6 +169,9 @@ func (p Proxy) ServeHTTP(w http.ResponseWriter, r *http.Request) (int, error) {
 	if requiresBuffering {
 		body, err := newBufferedBody(outreq.Body)
 		if err != nil {
+			if errors.Is(err, httpserver.ErrMaxBytesExceeded) {
+				return http.StatusRequestEntityTooLarge, err
+			}
 			return http.StatusBadRequest, errors.New("failed to read downstream request body")
 		}
 		if body != nil {
@@ -294,7 +297,9 @@ func (p Proxy) ServeHTTP(w http.ResponseWriter, r *http.Request) (int, error) {
 			return 0, nil
 		}
 
-		if backendErr == httpserver.ErrMaxBytesExceeded {
+		// (the transport may hand the body's error back wrapped, e.g. in a
+		// *net.OpError when the body is copied to the socket with ReadFrom)
+		if errors.Is(backendErr, httpserver.ErrMaxBytesExceeded) {
 			return http.StatusRequestEntityTooLarge, backendErr
 		}
 
